@@ -701,7 +701,14 @@ REFINED = ["Context::repr_round", "Context::mul/sqr/cubic (operands <= 2p/3p dig
            "inputs, to the model function the driver runs; the contract restated on the regenerated text "
            "(regenerated_repr_div_contract / _inv_ / _mul_)",
            "Context::add / sub for operands that fit p: repr_add_large_small / repr_add_small_large (4 alignment branches), "
-           "repr_round_sum (3 re-alignment branches)"]
+           "repr_round_sum (3 re-alignment branches)",
+           "round 7: the two closing clauses for the Context methods AS THEY ARE - representable => exact + Exact flag for "
+           "Context::mul/sqr/cubic (operands <= 2p/3p digits) and Context::div (dividend <= rhs.digits+p) "
+           "(ctx_*_representable_exact; before only opMul, the pre-shrink-free variants and repr_div had instances); "
+           "digit clause of Context::div with NO fit hypothesis (ctx_div_digits_all: every dividend, sound digits_ub/"
+           "digits_lb => at most p+1 digits, witness 200456/13 @2 = 154e2 inside the pre-shrink region); "
+           "operators_add_sub_contract: FBig + / - (all forms) meet the contract for operands that fit p (flag existential: the "
+           "operators drop it) and return a representable sum exactly"]
 FRONTIER = ["UBig::sqrt_rem: a parameter with its C12 contract (SqrtRemOk); Props/C03Link composes Context::sqrt with builder-nt's mirrored "
             "sqrtRemRepr (whose word/double-word primitive and Karatsuba kernel are frontier in C12) and proves it equal to the Nat.sqrt "
             "instance the driver runs",
@@ -722,14 +729,19 @@ FRONTIER = ["UBig::sqrt_rem: a parameter with its C12 contract (SqrtRemOk); Prop
             "extreme exponents, and every result whose exponent leaves isize (exponent sums, `e -= shift` of repr_div at "
             "isize::MIN, carries at isize::MAX) - no documented behaviour to compare with",
             "clause `|r - x| < 1 ulp` for Context methods on Reprs longer than the working length: only `_partial` / "
-            "`*_contract_outside_region` theorems (the code violates the clause inside the regions: counterexample theorems)"]
+            "`*_contract_outside_region` theorems (the code violates the clause inside the regions: counterexample theorems)"
+            "; the clause `at most p+1 digits` is no longer partial for Context::div (round 7, ctx_div_digits_all) nor for add/sub "
+            "(add_sub_digits) - `representable => exact` inside the regions has no theorem (the pre-shrink rounds "
+            "first; neither proved nor refuted there)"]
 THEOREMS = ["Dashu.Props.C03." + t for t in (
     "mul_operator_contract mul_contract_partial mul_preshrink_counterexample sqr_contract_partial cubic_contract_partial "
     "add_sub_contract add_sub_far_contract round_sum_contract operators_add_sub div_contract ctx_div_contract_partial inv_contract "
     "div_panics sqrt_contract sqrt_panics representable_exact add_sub_representable_exact div_representable_exact "
     "sqrt_representable_exact repr_round_digits mul_sqr_cubic_digits sqrt_digits add_sub_digits div_digits "
     "mul_contract_outside_region div_contract_outside_region add_sub_contract_outside_region div_preshrink_counterexample "
-    "add_guard_digit_counterexample sqrt_exact_flag_iff sqrt_discarded_low_inexact").split()] + [
+    "add_guard_digit_counterexample sqrt_exact_flag_iff sqrt_discarded_low_inexact "
+    "ctx_mul_representable_exact ctx_sqr_representable_exact ctx_cubic_representable_exact ctx_div_representable_exact "
+    "ctx_div_digits_all ctx_div_digits operators_add_sub_contract").split()] + [
     "Dashu.Props.C03Link.sqrt_contract_over_sqrt_rem", "Dashu.Props.C03Link.kernels_agree",
     "Dashu.Props.C03Link.sqrt_exact_flag_over_sqrt_rem"] + [
     "Dashu.Props.GenFloatArith." + t for t in (
